@@ -1173,11 +1173,13 @@ class TypeSystem:
         for f in t.all_features:
             if f.rangeType.name == "uima.cas.FSArray":
                 feature_value = fs.value(f.name)
-                if not feature_value.elements:
+                if feature_value is None or not feature_value.elements:
                     continue
                 # We check for every element that it is of type `elementType` or a child thereof
                 element_type = f.elementType or TOP_TYPE_NAME
                 for e in feature_value.elements:
+                    if e is None:
+                        continue
                     if not self.subsumes(element_type, e.type.name):
                         msg = "Member of [{}] has unsound type: was [{}], need [{}]!".format(
                             f.rangeType.name, e.type.name, element_type.name
